@@ -239,7 +239,7 @@ def table_writer_rule(run, ast, rule):
                     astq.text(rhs), astq.text(sub[0]["c"][2]) if sub else "?"), (f["file"], n["l"]))
 
 
-def ast_rules(run, rule, ast):
+def ast_rules(run, rule, ast, table=True):
     # publish: indirect table gets the address of the static v-table pointer
     for f in crules._fn(ast, r"vptr_vector<.*>::publish_vptrs<"):
         st = [n for n in astq.walk(f["body"]) if (n.get("k") == "BinaryOperator" and n.get("op") == "=" or (n.get("k") == "CXXOperatorCallExpr" and n.get("oop") == "=")) and any(
@@ -250,7 +250,8 @@ def ast_rules(run, rule, ast):
             run.instance(rule, "%s: indirect table entry = the class's indirect_vptr()" % crules.short(f)[:80], (f["file"], n["l"]), ok=ok)
             if not ok:
                 run.violation(rule, "vptr_vector::publish_vptrs|indirect-entry", "the table of addresses receives %s instead of the address of the class's static v-table pointer: virtual_ptrs created before a later update go stale" % astq.text(rhs), (f["file"], n["l"]))
-    table_writer_rule(run, ast, "C09-table")
+    if table:
+        table_writer_rule(run, ast, "C09-table")
     # accessors of the class records
     for f in [f for f in ast.funcs if f.get("body") and re.search(r"(class_info|generic_compiler::class_)::(indirect_vptr|vptr)$", f["name"])]:
         rets = [n for n in astq.walk(f["body"]) if n.get("k") == "ReturnStmt"]
